@@ -158,7 +158,10 @@ class CtorEstablishesInv(_StateOb):
         if part == 'flags':
             ok = (not cv.value.modified) and isinstance(cv._value, (T.SymTrackedArray if w.symbolic else utl.TrackedArray)) \
                 and hasattr(cv, '_BCsTerm')
-            return [('value_clean_tracked_and_cached', self.flag(w, ok))]
+            # make_bc assigned coefficient arrays, so the BC object's dirty bits were set before the constructor ran:
+            # the constructor must leave them alone (another variable sharing the BC object may still need them)
+            return [('value_clean_tracked_and_cached', self.flag(w, ok)),
+                    ('constructor_leaves_BC_dirty_bits_alone', self.flag(w, bool(cv.BCs.modified) or self.style == 'defaulted'))]
         # the constructor leaves the BC object's own dirty bits alone; ghosts and cache are those of the current BCs
         return inv_claims(w, cv, P, part, 'cv', force=True)
 
